@@ -648,6 +648,23 @@ def run_instance(inst):
                         mism = f"checks sym={sym_checks[:6]} native={nat['checks'][:6]}"
                     elif json.dumps(sym_obs, sort_keys=True, default=str) != json.dumps(nat["obs"], sort_keys=True, default=str):
                         mism = f"observations sym={json.dumps(sym_obs, default=str)[:300]} native={json.dumps(nat['obs'], default=str)[:300]}"
+                    if mism and not in_known and not ctx.failed and kind == "ok":
+                        # The real code fails an obligation (or raises) on this witness although the symbolic run discharged
+                        # everything: state carried between calls (caches, mutated shared objects) or behaviour outside the
+                        # models.  A run on the real code that fails twice in a row is a violation, not a modelling question.
+                        nat_bad = [l for l, ok in nat["checks"] if not ok]
+                        if nat["outcome"].startswith("exc:"):
+                            nat_bad.append("uncaught:" + nat["outcome"][4:])
+                        if nat_bad:
+                            nat2 = run_native(fn, params, inputs, active)
+                            bad2 = [l for l, ok in nat2["checks"] if not ok]
+                            if nat2["outcome"].startswith("exc:"):
+                                bad2.append("uncaught:" + nat2["outcome"][4:])
+                            if nat_bad[0] in bad2 and not nat2["known"]:
+                                if len(res["violations"]) < 3:
+                                    res["violations"].append(dict(label=nat_bad[0], inputs=enc_inputs(inputs), native=nat2["outcome"],
+                                                                  detail=(nat2["detail"] or "") + " [fails on the real code only: history-dependent or outside the models]"))
+                                mism = None
                     if mism:
                         if len(res["mismatches"]) < 5:
                             res["mismatches"].append(dict(inputs=enc_inputs(inputs), what=mism))
@@ -815,7 +832,7 @@ def run_property(pid, instances, tier, seed, meta):
     if crashed:
         harness_errors += [f"instance {n} crashed: {tb.strip().splitlines()[-1]}" for n, tb in crashed]
     if mism:
-        harness_errors += [f"model/native mismatch in {n}: {m['what'][:300]}" for n, m in mism[:10]]
+        harness_errors += [f"model/native mismatch in {n}: {m['what'][:1500]} inputs={json.dumps(m.get('inputs'), default=str)[:300]}" for n, m in mism[:10]]
     if vacuous:
         harness_errors += [f"vacuous instance (no obligation reached on a validated path): {n}" for n in vacuous[:10]]
     if harness_errors and code == 0:
